@@ -289,10 +289,10 @@ def run_C19(ctx):
         # re-run the harness with the full families for the usable cases
         allS, allE = flagsets(), ext_flagsets()
         ids = {r["id"] for r in s_usable}
-        sc = [dict(c, flagsets=allS) for c in s_cases if c["id"] in ids][:20]
+        sc = [dict(c, flagsets=allS) for c in s_cases if c["id"] in ids][:14]
         ide = {r["id"] for r in e_usable}
         hand = [c for c in e_cases if c["id"] in ide and c["id"].startswith("h")]
-        ec = [dict(c, flagsets=allE) for c in (hand[-14:] + [c for c in e_cases if c["id"] in ide and not c["id"].startswith("h")])][:26]
+        ec = [dict(c, flagsets=allE) for c in (hand[-14:] + [c for c in e_cases if c["id"] in ide and not c["id"].startswith("h")])][:22]
         pp = {r["id"]: r["pp"] for r in s_usable + e_usable}
         recs = V.run_harness(ctx, "problems", sc, tag="-s19") + V.run_harness(ctx, "problems", ec, tag="-e19")
         usable = []
